@@ -6,7 +6,7 @@ import math
 from harness import vloop
 
 
-def run_discovery(spas, filt_id=None, filt_addr=None, stalls=(), seed=0):
+def run_discovery(spas, filt_id=None, filt_addr=None, stalls=(), seed=0, handler_delay=0.0):
     """spas: list of dict(id=bytes, name=str, addr=(ip,port), replies=[(broadcast_no, delay_s, copies)]).
     returns dict(labels, listed, finished_age_us, closed, loc_tasks_left, skipped)"""
     import random
@@ -22,6 +22,10 @@ def run_discovery(spas, filt_id=None, filt_addr=None, stalls=(), seed=0):
 
         async def on_event(ev, **kw):
             events.append(ev.name)
+            if ev.name == "LOCATING_DISCOVERED_SPA":
+                if handler_delay:
+                    await asyncio.sleep(handler_delay)      # the client's handler for a newly seen spa really suspends
+                log.append(("H",))
         loc = GeckoAsyncLocator(tm, on_event, spa_address=filt_addr, spa_identifier=filt_id)
         bno = [0]
 
